@@ -273,4 +273,24 @@ PROPS = {
         "assumptions": ["attribute names in generated types are NFC-stable (normalisation tables are shipped for the JSON decoder cases)",
                         "capsule types are modelled by identity only"],
     },
+    "C20": {
+        "n_quick": 900, "n_thorough": 20000,
+        "check_fn": "k20_check", "prop_fn": "k20_prop",
+        "rule": "histories of three kinds, round-robin: (1) 4..17 Add / Remove / Copy operations over up to 4 generic sets of integers hashed modulo 1..3 (so buckets collide and grow), every "
+                "set's buckets read through the hook after each step and the final state compared with the heap model; (2) 6..15 steps over generated values (known, null, refined unknown, "
+                "marked): operations, accessors followed by mutation of what they returned (AsValueSlice, AsValueMap, AsBigFloat, Marks, AsValueSet, Walk paths, UnmarkDeepWithPaths), "
+                "constructors followed by mutation of what they were given (slices, maps, mark sets, value sets), further refinement of refined unknowns, with a deterministic deep "
+                "fingerprint of every live value re-read after each step; (3) the same standard-function call repeated 4 times; then the schedules: 2..16 goroutines running read-only "
+                "workloads over shared values under the race detector, results compared with the sequential run; non-trivial = every history",
+        "trusted_base": TB_COMMON + ["Go slice semantics (append writes in place while capacity lasts, otherwise reallocates) is modelled in Model/Heap.v; the growth factor is not observable in "
+                                     "the compared views", "the Go race detector (go build -race) decides data races on the schedules the Go scheduler produced in this run",
+                                     "NumberVal's documented ownership transfer of the big.Float it is given is outside the property (documented contract)"],
+        "assumptions": ["members of the generic sets are integers with equality as equivalence (the algorithm is generic in the member type)"],
+        "refuted": ["C20_shallow_copy_refuted (the code before fix commit 276a659)"],
+        "partial": ["the theorems cover the mutable helper sets (the only shared mutable structure values hand out) over all histories; immutability of values under accessor / constructor "
+                    "aliasing and purity are decided by fingerprints over generated histories; freedom from data races is decided by the race detector on the schedules actually run: a "
+                    "Gallina model cannot exhibit the Go memory model"],
+        "prop_cases_are_inputs": True,
+        "race": {"n_quick": 150, "n_thorough": 3000},
+    },
 }
